@@ -27,6 +27,11 @@ class WireManagerBase(abc.ABC):
         for wire in self.wires:
             wire.grading.length = wire.length
 
+    def reset(self) -> None:
+        """Forget the gradings of a previous grading pass; every pass starts from scratch"""
+        for wire in self.wires:
+            wire.grading = Grading(wire.length)
+
     @abc.abstractmethod
     def grade(self) -> None:
         """Convert data from user or neighbour to Grading objects on wires"""
@@ -136,6 +141,12 @@ class WirePropagateManager(WireManagerBase):
 
     def update(self):
         super().update()
+
+    def reset(self) -> None:
+        # chops of this manager are copies of the neighbours' chops, made during a grading pass
+        self.chops = []
+
+        super().reset()
 
     def grade(self):
         """Checks each wire whether their coincidents (wires from other blocks)
